@@ -63,18 +63,27 @@ impl Property for C16 {
     }
 
     fn generate(&self, rng: &mut Rng, tier: Tier) -> Case {
-        let family = match rng.below(20) {
-            0..=8 => "sweep-read",
-            9..=15 => "sweep-write",
-            16..=17 => "transparent",
-            18 => "zero",
-            _ => "double",
+        let family = match rng.below(24) {
+            0..=7 => "sweep-read",
+            8..=14 => "sweep-write",
+            15..=16 => "transparent",
+            17 => "zero",
+            18 => "double",
+            _ => "sweep-read-file",
         };
         let mut case = Case::new("C16", family);
         let noisy = rng.chance(1, 2);
+        // a file larger than jawk's own 8 KiB BufReader, so that a fault can land after a refill
+        let big = family == "sweep-read-file" && rng.chance(1, 6);
         let w = StreamWish {
-            min_records: 0,
-            max_records: if tier == Tier::Thorough { 20 } else { 10 },
+            min_records: if big { 120 } else { 0 },
+            max_records: if big {
+                260
+            } else if tier == Tier::Thorough {
+                20
+            } else {
+                10
+            },
             noise_eighths: if noisy { 3 } else { 0 },
             allow_touch: true,
             spell_level: 1,
@@ -82,7 +91,9 @@ impl Property for C16 {
             schema_only: false,
         };
         case.pieces = gen_stream(rng, &w);
-        truncate_pieces(&mut case.pieces, 600);
+        if !big {
+            truncate_pieces(&mut case.pieces, 600);
+        }
         let mut wish = PipeWish::any();
         wish.allow_corpus = false;
         let pipe = gen_pipe(rng, &wish);
@@ -114,6 +125,16 @@ impl Property for C16 {
             "zero" => {
                 case.out.zero_at = Some(rng.below(120));
             }
+            "sweep-read-file" => {
+                case.delivery = Delivery {
+                    whole: true,
+                    ..Delivery::default()
+                };
+                let inside = rng.chance(1, 3);
+                super::c17::place_cuts(rng, &mut case, inside);
+                let n = case.cuts().len() + 1;
+                case.files = (0..n).map(|_| FilePlan::default()).collect();
+            }
             "double" => {
                 case.rfault = Some(Fault {
                     at: rng.below(len + 1),
@@ -135,6 +156,9 @@ impl Property for C16 {
     }
 
     fn check(&self, case: &Case, ctx: &mut Ctx) -> Option<Violation> {
+        if case.family == "sweep-read-file" || case.family == "file-point" {
+            return check_files(case, ctx);
+        }
         let input = case.stream();
         let reference = ctx.exec(ref_spec(case, &input));
         match &reference.outcome {
@@ -515,4 +539,184 @@ fn probe_read_position(case: &Case, at: usize, input: &[u8], ctx: &mut Ctx) {
             ctx.stats.probe("read fault on the look-ahead byte after a value");
         }
     }
+}
+
+// ---------------------------------------------------------------------------------------
+// Read failures on file arguments (hook H2: the file opener seam)
+
+fn check_files(case: &Case, ctx: &mut Ctx) -> Option<Violation> {
+    let datas = split_files(case);
+    if case.files.len() != datas.len() {
+        ctx.stats.invalid = true;
+        return None;
+    }
+    if case.opts.iter().flatten().any(|t| t.contains("&file-name")) {
+        ctx.stats.invalid = true;
+        return None;
+    }
+    let paths = ctx.fresh_paths(datas.len());
+    let mut refcase = case.clone();
+    refcase.out = SinkPlan::default();
+    refcase.err = SinkPlan::default();
+    let reference = ctx.exec(sim_files_spec(&refcase, &paths, &datas, &[]));
+    match &reference.outcome {
+        Outcome::Panic(..) | Outcome::Abort(_) | Outcome::Clap(_) => {
+            ctx.stats.invalid = true;
+            ctx.jawk_panic = None;
+            return None;
+        }
+        _ => {}
+    }
+    if case.family == "file-point" {
+        return check_file_point(case, &paths, &datas, &reference, ctx);
+    }
+    let seed = case.param("sweep_seed") as u64;
+    for (j, d) in datas.iter().enumerate() {
+        // every offset of small files, a sample of larger ones; plus a failing open
+        let n = d.len() + 1;
+        let mut offsets: Vec<usize> = if (ctx.tier == Tier::Thorough && n <= 2000) || n <= 200 {
+            (0..n).collect()
+        } else {
+            let mut rng = Rng::new(mix(&[seed, j as u64, 91]));
+            let mut v: Vec<usize> = vec![0, n - 1, n.saturating_sub(2)];
+            for _ in 0..(if n > 2000 { 40 } else { 150 }) {
+                v.push(rng.below(n));
+            }
+            v.sort_unstable();
+            v.dedup();
+            v
+        };
+        offsets.push(usize::MAX); // the open itself fails
+        for k in offsets {
+            let mut rng = Rng::new(mix(&[seed, j as u64, k as u64, 5]));
+            let mut p = case.clone();
+            p.family = "file-point".into();
+            p.files = datas.iter().map(|d| gen_file_plan(&mut rng, d.len())).collect();
+            if k == usize::MAX {
+                p.files[j].open_fails = Some(*rng.pick(&[ErrKind::PermissionDenied, ErrKind::Other, ErrKind::TimedOut]));
+            } else {
+                p.files[j].eintr.retain(|e| e.0 <= k);
+                p.files[j].fault = Some(Fault {
+                    at: k,
+                    kind: *rng.pick(&ErrKind::READ_KINDS),
+                    sticky: rng.chance(1, 2),
+                });
+            }
+            if let Some(mut v) = check_file_point(&p, &paths, &datas, &reference, ctx) {
+                v.reduced = Some(Box::new(p));
+                return Some(v);
+            }
+        }
+    }
+    None
+}
+
+fn check_file_point(case: &Case, paths: &[String], datas: &[Vec<u8>], reference: &RunOut, ctx: &mut Ctx) -> Option<Violation> {
+    ctx.sub_begin();
+    let r = ctx.exec(sim_files_spec(case, paths, datas, &case.files));
+    let planned: Vec<usize> = (0..case.files.len())
+        .filter(|i| case.files[*i].fault.is_some() || case.files[*i].open_fails.is_some())
+        .collect();
+    let delivered: Vec<usize> = planned
+        .iter()
+        .copied()
+        .filter(|i| r.obs.files.get(*i).map_or(false, |f| f.fault_delivered))
+        .collect();
+    let rd = !delivered.is_empty();
+    let transfers = r.obs.intr_reads + r.obs.short_reads;
+    ctx.sub_end(rd || (planned.is_empty() && transfers > 0));
+    if rd {
+        let j = delivered[0];
+        if case.files[j].open_fails.is_some() {
+            ctx.stats.fault("file.open.failed", 1);
+        } else if let Some(f) = &case.files[j].fault {
+            ctx.stats.fault("file.read.failed", 1);
+            ctx.stats.fault(if f.sticky { "file.read.failed.sticky" } else { "file.read.failed.recovers" }, 1);
+            if f.at == datas[j].len() {
+                ctx.stats.probe("file read fault instead of EOF");
+            }
+            if f.at == 0 {
+                ctx.stats.probe("file read fault at offset 0");
+            }
+            if f.at >= 8192 {
+                ctx.stats.probe("file read fault beyond jawk's first 8 KiB buffer fill");
+            }
+        }
+        if j > 0 {
+            ctx.stats.probe("read fault in a later file");
+        }
+        if j + 1 < case.files.len() {
+            ctx.stats.probe("read fault with further files pending");
+        }
+    } else if !planned.is_empty() {
+        ctx.stats.probe("planned file fault not delivered (jawk stopped first)");
+    }
+    let so = strip_paths(&r.obs.stdout, paths);
+    let ro = strip_paths(&reference.obs.stdout, paths);
+    if let Outcome::Panic(m, l) = &r.outcome {
+        return viol("C16.panic", format!("jawk panicked under a file read fault: {m} at {l}"));
+    }
+    if let Outcome::Abort(why) = &r.outcome {
+        return viol("C16.read-stops", format!("run did not stop after a file read failure: {why}"));
+    }
+    if !rd {
+        let rule = if planned.is_empty() { "C16.transparent" } else { "C16.undelivered" };
+        if r.outcome.class() != reference.outcome.class() || so != ro || strip_paths(&r.obs.stderr, paths) != strip_paths(&reference.obs.stderr, paths) {
+            return viol(
+                rule,
+                format!(
+                    "no failure was delivered on any file (only EINTR/short reads) but the run differs: {} stdout {} vs reference {} stdout {}",
+                    r.outcome.describe(),
+                    show(&so),
+                    reference.outcome.describe(),
+                    show(&ro)
+                ),
+            );
+        }
+        return None;
+    }
+    let j = delivered[0];
+    let what = if case.files[j].open_fails.is_some() {
+        format!("opening file {j} of {} failed", case.files.len())
+    } else {
+        format!(
+            "reading file {j} of {} failed at offset {} of {}",
+            case.files.len(),
+            case.files[j].fault.as_ref().map_or(0, |f| f.at),
+            datas[j].len()
+        )
+    };
+    if !r.outcome.is_err() {
+        return viol("C16.read-reported", format!("{what} but go returned {}", r.outcome.describe()));
+    }
+    let recovers = case.files[j].fault.as_ref().map_or(true, |f| !f.sticky);
+    if recovers && r.obs.ok_reads_after_any_rfault > 0 {
+        return viol(
+            "C16.read-stops",
+            format!("{what}; {} successful read(s) were consumed afterwards (the error was skipped)", r.obs.ok_reads_after_any_rfault),
+        );
+    }
+    if r.obs.opens_after_any_rfault > 0 {
+        return viol(
+            "C16.read-stops",
+            format!("{what}; {} further file(s) were opened afterwards", r.obs.opens_after_any_rfault),
+        );
+    }
+    if classify(&case.opts) != Class::Buffering && !is_prefix(&so, &ro) {
+        let cp = common_prefix(&so, &ro);
+        let mut ok = false;
+        if policy_of(&case.opts) == Policy::Stdout {
+            let ls = so[..cp].iter().rposition(|b| *b == b'\n').map_or(0, |p| p + 1);
+            let tail = &so[ls..];
+            let nl = tail.iter().filter(|b| **b == b'\n').count();
+            ok = tail.starts_with(b"error:") && nl <= 1 && is_prefix(&so[..ls], &ro);
+        }
+        if !ok {
+            return viol(
+                "C16.prefix",
+                format!("{what}; streaming pipeline: stdout is not a prefix of the fault-free stdout (first difference at byte {cp}): {} vs {}", show(&so), show(&ro)),
+            );
+        }
+    }
+    None
 }
